@@ -32,7 +32,11 @@ HYGIENE_TEXT = (
     'and retried operations do not edit their container arguments; no '
     'identity test on values; no mutable class-level state written '
     'through self; no table bound to an argument; no parameter '
-    'accepted and ignored.')
+    'accepted and ignored; no equality of references modulo complement, '
+    'no references counted as nodes; zip() pairs its arguments as '
+    'given; attributes assigned through self are declared; min()/max() '
+    'of a loop-filled result is non-empty in every small model; nothing '
+    'assigned only inside a loop is read after it.')
 
 
 ATTR_TEXT = (
